@@ -47,6 +47,8 @@ func newEC(t *Term) Value {
 func (p *Path) ecEncode(kind string, x *Term) Slice {
 	tb := p.tb
 	app := tb.App(kind+"_enc", SBV(256), x)
+	// canonical encodings are injective: enc has a left inverse (instantiated per application)
+	p.assertPC(tb.Eq(tb.App(kind+"_encinv", SInt, app), x))
 	out := make(Slice, 32)
 	for i := 0; i < 32; i++ {
 		out[i] = tb.Extract(app, 8*(32-i)-1, 8*(31-i))
